@@ -55,6 +55,9 @@ func Dial(
 	}
 
 	nonTlsConnFn := func() (net.Conn, error) {
+		if c, ok, err := simDial(ctx, addr); ok {
+			return c, err
+		}
 		dialer := &net.Dialer{}
 		var err error
 		var nonTlsConn net.Conn
